@@ -219,9 +219,11 @@ impl EventInner {
         // SAFETY: The awaiter is pinned inside the owning future.
         let awaiter_mut = unsafe { Pin::new_unchecked(awaiter_mut) };
         // SAFETY: We hold the mutex.
-        unsafe {
-            waiters.register(awaiter_mut, waker);
-        }
+        let displaced = unsafe { waiters.register(awaiter_mut, waker) };
+        // Dropping a waker runs user code that may call back into this
+        // event, so release the mutex before dropping the displaced one.
+        drop(waiters);
+        drop(displaced);
 
         Poll::Pending
     }
@@ -249,12 +251,14 @@ impl EventInner {
         // SAFETY: The awaiter is pinned inside the owning future.
         let awaiter_mut = unsafe { Pin::new_unchecked(awaiter_mut) };
         // SAFETY: We hold the mutex.
-        unsafe {
-            waiters.unregister(awaiter_mut);
-        }
+        let waker = unsafe { waiters.unregister(awaiter_mut) };
         if waiters.is_empty() {
             self.state.fetch_and(!HAS_WAITERS, Ordering::Relaxed);
         }
+        // Dropping a waker runs user code that may call back into this
+        // event, so release the mutex before dropping the removed one.
+        drop(waiters);
+        drop(waker);
     }
 }
 
